@@ -40,12 +40,12 @@ G8_EXEMPT = {
 
 
 def run(ctx, rep):
-    rep.run(RT.rule_capture_complete, ctx, rep, "G1", min_actions=26)
-    rep.require_min("G1", 60)
+    rep.run(RT.rule_capture_complete, ctx, rep, "G1", min_actions=20)
+    rep.require_min("G1", 45)
     rep.run(RT.rule_no_phantom_read, ctx, rep, "G2")
     rep.require_min("G2", 40)
     rep.run(RT.rule_no_clash, ctx, rep, "G3")
-    rep.run(RT.rule_binding, ctx, rep, "F1", min_actions=26)
+    rep.run(RT.rule_binding, ctx, rep, "F1", min_actions=20)
     rep.run(RT.rule_marker_chain, ctx, rep, "F3")
     rep.require_min("F3", 8)
     rep.run(RT.rule_scope_symmetry, ctx, rep, "G4")
@@ -59,5 +59,7 @@ def run(ctx, rep):
     rep.run(RT.rule_lists_kept_whole, ctx, rep, "G10")
     rep.run(RT.rule_ctor_params_stored, ctx, rep, "G11")
     rep.run(RT.rule_result_shapes, ctx, rep, "G13")
+    rep.run(RT.rule_parallel_results_aligned, ctx, rep, "G14")
     rep.require_min("G7", 2)
+    rep.run(RF.rule_parent_walk_truthiness, ctx, rep, "G15")
     rep.run(RF.rule_locals_defined, ctx, rep, "U1", packages=("gtwrap/interface_parser",), min_functions=3)
